@@ -252,4 +252,14 @@ theorem ineqEvaluator_sound (T : Ty) (ev : AExpr → Except Err Num) (h : ineqEv
   · subst h; exact ⟨evSound_evalHol, Or.inr rfl⟩
 
 
+/-- what `side1 REL side2` means for the values -/
+def Rel.holds : Rel → Rat → Rat → Prop
+  | .eq, x, y => x = y
+  | .ne, x, y => x ≠ y
+  | .cmp .lt, x, y => x < y
+  | .cmp .le, x, y => x ≤ y
+  | .cmp .gt, x, y => y < x
+  | .cmp .ge, x, y => y ≤ x
+
+
 end Holpy.C05
